@@ -568,6 +568,10 @@ func (pConn *PFCPConn) handleSessionReportResponse(msg message.Message) error {
 
 		logger.PfcpLog.Warnln("context not found, deleting session locally")
 
+		if err := releaseAllocatedIPs(upf.ippool, &sessItem); err != nil {
+			logger.PfcpLog.Errorln("failed to release the UE IP address of session", seid, err)
+		}
+
 		pConn.RemoveSession(sessItem)
 
 		cause := upf.SendMsgToUPF(
